@@ -171,6 +171,8 @@ type request struct {
 	Root    *cmdSpec     `json:"root"`
 	Argv    []B          `json:"argv"`
 	Repeat  int          `json:"repeat"`
+	// Argv0: what is passed to Run as args[0] (the program name as the shell gives it); default: the root's name
+	Argv0 *B `json:"argv0"`
 
 	// lex / compile / match
 	Spec  B            `json:"spec"`
@@ -996,7 +998,11 @@ func runCase(req *request, stderr *bytes.Buffer) *runOut {
 		}
 		r.configure(app.Cmd, root, rootName)
 
-		argv := append([]string{rootName}, strs(req.Argv)...)
+		argv0 := rootName
+		if req.Argv0 != nil {
+			argv0 = string(*req.Argv0)
+		}
+		argv := append([]string{argv0}, strs(req.Argv)...)
 		// repeat > 1: the same application is run again on the same command line; what is
 		// reported is the last run
 		for i := 1; i < req.Repeat; i++ {
